@@ -81,14 +81,27 @@ def products(repo):
     return out
 
 
-def run(repo, offer, software, for_server=True):
+def algorithms_class_state(repo):
+    """fresh values of the class-level containers / scalars of class Algorithms (literal displays only)"""
+    out = {}
+    for st in repo.cls('algorithms', 'Algorithms').body:
+        tg = st.targets[0] if isinstance(st, ast.Assign) and len(st.targets) == 1 else (st.target if isinstance(st, ast.AnnAssign) and st.value is not None else None)
+        if isinstance(tg, ast.Name):
+            try:
+                out[tg.id] = ast.literal_eval(st.value)
+            except (ValueError, SyntaxError):
+                pass
+    return out
+
+
+def run(repo, offer, software, for_server=True, db=None, class_state=None):
     """-> rec dictionary returned by Algorithms.get_recommendations (second component)"""
     gr = repo.func('algorithms', 'Algorithms.get_recommendations')
     prods = products(repo)
     params = [a.arg for a in gr.args.args]
     if params[1:] != ['software', 'for_server']:
         raise AnalysisError('get_recommendations: parameters are %s' % params)
-    db = copy.deepcopy(DB)
+    db = copy.deepcopy(DB if db is None else db)
     item = Tok('<item ssh2>', {'sshv': 2, 'db': db})
     sw = None
     if software is not None:
@@ -96,6 +109,10 @@ def run(repo, offer, software, for_server=True):
         sw = Tok('<software %s %s>' % software, {'product': pname, 'version': software[1]})
     env = dict(prods)
     env.update({'self': Opaque(), 'self.values': [item], 'software': sw, 'for_server': for_server})
+    # class-level containers of Algorithms (mutable class state: the same objects in every call that is handed the same `class_state`)
+    for k_, v_ in (class_state if class_state is not None else algorithms_class_state(repo)).items():
+        for pre_ in ('self.', 'cls.', 'Algorithms.'):
+            env[pre_ + k_] = v_
 
     def hook(call, e, interp):
         t = call_name(call) or unparse(call.func)
